@@ -212,6 +212,9 @@ def stream_case(ctx, dec, msgs, damage, spec_base):
                 damaged={str(i): list(damage[i][:2]) + [damage[i][3]] for i in damage})
     ksig = '+'.join(kinds) or 'none'
     sample = dict(n_messages=len(msgs), damaged={str(i): '%s %s (%s)' % (damage[i][0], damage[i][1], damage[i][3]) for i in damage})
+    recent = ctx.__dict__.setdefault('_c12_recent', [])
+    recent.append((stream, good, unjudged, spec, ksig))
+    del recent[:-3]
     # ---- continue-on-error, full mode
     ctx.count('damaged_streams_full')
     ctx.evaluated((stream.hex(), 'full'), bool(damage), sample=sample)
@@ -293,6 +296,67 @@ def stream_case(ctx, dec, msgs, damage, spec_base):
                 ctx.violate('no-continue/preceding-not-delivered/%s' % k[0], 'delivered %d messages before the failure, expected %d'
                             % (len(got), len(want)), spec)
     return stream
+
+
+def interleaved_fault_scans(ctx, decs):
+    """two or three fault streams scanned with continue-on-error AT THE SAME TIME (generators advanced under a random schedule, on one
+    shared decoder or one each; a scan may be left half-way): each scan still delivers exactly its own undamaged messages, in
+    order - a message refused in one scan leaves nothing behind for the scan that is advanced next."""
+    from pybufrkit.decoder import generate_bufr_message
+    recent = list(getattr(ctx, '_c12_recent', []))
+    if len(recent) < 2:
+        return
+    rng = ctx.rng
+    gens = []
+    for i, (stream, good, unjudged, spec, ksig) in enumerate(recent):
+        gens.append(dict(gen=generate_bufr_message(decs[i % len(decs)], stream, continue_on_error=True), got=[], good=good, unjudged=unjudged,
+                         spec=spec, ksig=ksig, done=False, leave=(rng.randrange(len(good) + 1) if rng.random() < 0.25 else None)))
+    live = list(gens)
+    schedule = []
+    saved = sys.stderr
+    sys.stderr = open(os.devnull, 'w')
+    failed = None
+    try:
+        with time_limit(20):
+            while live and len(schedule) < 300:
+                g = rng.choice(live)
+                schedule.append(gens.index(g))
+                if g['leave'] is not None and len([x for x in g['got'] if x not in g['unjudged']]) >= g['leave']:
+                    g['gen'].close()
+                    live.remove(g)
+                    ctx.count('fault_scans_left_half_way')
+                    continue
+                try:
+                    m = next(g['gen'])
+                except StopIteration:
+                    g['done'] = True
+                    live.remove(g)
+                    continue
+                g['got'].append(m.serialized_bytes)
+    except CaseTimeout:
+        ctx.count('case_timeouts')
+        return
+    except BaseException as e:
+        failed = e
+    finally:
+        sys.stderr.close()
+        sys.stderr = saved
+    ctx.count('interleaved_fault_scan_groups')
+    ctx.add('interleaving_schedules', ''.join(str(x) for x in schedule)[:50])
+    if failed is not None:
+        ctx.violate('interleaved/continue-on-error/escapes:%s' % type(failed).__name__, 'with continue-on-error %s escaped from one of %d scans advanced alternately'
+                    % (type(failed).__name__, len(gens)), dict(gens[0]['spec'], schedule=schedule[:60]), exc=failed)
+        return
+    for g in gens:
+        judged = [x for x in g['got'] if x not in g['unjudged']]
+        want = g['good'] if g['done'] else g['good'][:len(judged)]
+        ctx.evaluated((g['spec'].get('stream_hex'), 'interleaved', tuple(schedule)), True)
+        ctx.count('interleaved_fault_scans')
+        if judged != want:
+            ctx.violate('interleaved/continue-on-error/%s/%s' % ('undamaged-lost' if len(judged) < len(want) else 'wrong-yields', g['ksig']),
+                        'one of %d fault streams scanned at the same time delivered %d messages (lengths %r), its undamaged messages are %d (lengths %r)'
+                        % (len(gens), len(judged), [len(x) for x in judged][:8], len(want), [len(x) for x in want][:8]),
+                        dict(g['spec'], schedule=schedule[:60], decoders=len(decs)))
 
 
 def cli_check(ctx, stream, scratch, tag, spec, real_subprocess=False):
@@ -485,6 +549,8 @@ def run(ctx):
                 if use_c:
                     ctx.count('fault_streams_on_compiled_decoder')
                 stream = stream_case(ctx, decc if use_c else dec, order, dmg, dict(origin='single-fault', ids=m.ids, compiled_decoder=use_c))
+                if fi % 9 == 4:
+                    interleaved_fault_scans(ctx, [dec] if fi % 2 else [dec, Decoder()])
                 if ncli < (3 if ctx.quick else 20) and fi % 7 == 0 and f[3] in ('invalid', 'unknown-descriptor'):
                     ncli += 1
                     cli_check(ctx, stream, scratch, 'p%d_%d' % (mi, fi), dict(origin='cli', stream_hex=stream.hex(), fault=list(f[:2])),
@@ -517,6 +583,8 @@ def run(ctx):
                     if use_c:
                         ctx.count('fault_streams_on_compiled_decoder')
                     stream_case(ctx, decc if use_c else dec, msgs, dmg, dict(origin='damage-subsets', n=n, compiled_decoder=use_c))
+                    if ctx.counters['damaged_streams_full'] % 7 == 3:
+                        interleaved_fault_scans(ctx, [dec] if rep % 2 else [dec, Decoder(), decc if use_c else Decoder()])
     finally:
         shutil.rmtree(scratch, ignore_errors=True)
 
